@@ -14,6 +14,7 @@ import (
 	"os/exec"
 	"path/filepath"
 	"runtime"
+	"runtime/pprof"
 	"sort"
 	"strconv"
 	"strings"
@@ -170,6 +171,8 @@ type check struct {
 	workers int // 0 = all cores
 	// replay re-executes one recorded case and returns a description of what happened
 	replay func(v *Violation) string
+	// post runs once in the driver after the workers' results were merged
+	post func(m *Result, tier string)
 }
 
 var checks = map[string]*check{}
@@ -227,8 +230,31 @@ func workerMain(a []string) {
 		distinct: map[uint64]struct{}{}, fpSeen: map[string]int{}, harnessName: c.name,
 		deadline: time.Now().Add(time.Duration(capS) * time.Second), sampleBudget: 3}
 	w.cur = openCur(os.Getenv("VERIF_CURFILE"))
+	go watchdog(w.cur)
 	c.body(w)
 	w.finish()
+}
+
+// watchdog ends the worker when no new case was started for hangAfter: a case that
+// normally takes microseconds is then stuck in a loop. The driver names the case from the
+// cur file and confirms it by replaying it in a fresh process before reporting.
+const hangAfter = 100 * time.Second
+
+func watchdog(c *curFile) {
+	last := c.Ticks()
+	lastChange := time.Now()
+	for {
+		time.Sleep(2 * time.Second)
+		if t := c.Ticks(); t != last {
+			last, lastChange = t, time.Now()
+			continue
+		}
+		if time.Since(lastChange) > hangAfter {
+			fmt.Fprintln(os.Stderr, "fatal error: HANG no case completed for", hangAfter)
+			pprof.Lookup("goroutine").WriteTo(os.Stderr, 1)
+			os.Exit(4)
+		}
+	}
 }
 
 // ---- driver ----
@@ -293,12 +319,22 @@ func driverMain(prop, tier string) int {
 					tail = tail[:700] + "\n…\n" + tail[len(tail)-700:]
 				}
 				crashed[i] = fmt.Sprintf("worker %d died: %v\ncase: %s\nstderr: %s", i, err, strconv.QuoteToASCII(string(cs.data)), tail)
-				results[i].Violations = append(results[i].Violations, Violation{
-					Property: prop, Harness: c.name + "/" + cs.harness,
+				v := Violation{
+					Property: prop, Harness: cs.harness,
 					Fingerprint: prop + "/crash/" + firstPanicLine(errb.String()),
 					What:        "worker process died while running this case: " + firstPanicLine(errb.String()),
 					Case:        cs.data, Config: cs.config,
-				})
+				}
+				if confirmCrash(self, &v) {
+					results[i].Violations = append(results[i].Violations, v)
+				} else {
+					crashed[i] += "\n(not reproduced by replaying the case alone: reported as unconfirmed, not as a violation)"
+					if results[i].Counters == nil {
+						results[i].Counters = map[string]int64{}
+					}
+					results[i].Counters["unconfirmed_worker_deaths"]++
+					results[i].Capped = true
+				}
 			} else if derr != nil && results[i].Fatal == "" {
 				results[i].Fatal = "worker produced no result: " + derr.Error() + " " + errb.String()
 			}
@@ -350,6 +386,9 @@ func driverMain(prop, tier string) int {
 		if r.Fatal != "" && m.Fatal == "" {
 			m.Fatal = r.Fatal
 		}
+	}
+	if c.post != nil && m.Fatal == "" {
+		c.post(&m, tier)
 	}
 	if m.Fatal != "" {
 		fmt.Println("HARNESS-ERROR property=" + prop + " " + m.Fatal)
@@ -454,6 +493,34 @@ func driverMain(prop, tier string) int {
 		fmt.Printf("  %s=%d\n", k, m.Counters[k])
 	}
 	return exit
+}
+
+// confirmCrash replays the case in fresh processes (3 times, 90 s each); a crash or hang
+// must reproduce every time to be believed.
+func confirmCrash(self string, v *Violation) bool {
+	c := checks[v.Property]
+	if c == nil || c.replay == nil || len(v.Case) == 0 {
+		return len(v.Case) > 0
+	}
+	path := writeReplay(v)
+	for i := 0; i < 3; i++ {
+		cmd := exec.Command(self, "replay", path)
+		done := make(chan error, 1)
+		if err := cmd.Start(); err != nil {
+			return true
+		}
+		go func() { done <- cmd.Wait() }()
+		select {
+		case err := <-done:
+			if err == nil {
+				return false // replays cleanly
+			}
+		case <-time.After(40 * time.Second):
+			cmd.Process.Kill()
+			<-done
+		}
+	}
+	return true
 }
 
 func firstPanicLine(s string) string {
